@@ -39,6 +39,7 @@ FN = {
     'numpy.subtract': 'sub', 'numpy.negative': 'neg', 'numpy.floor_divide': 'floordiv',
     'scipy.special.loggamma': 'loggamma', 'scipy.special.gammaln': 'loggamma', 'math.lgamma': 'loggamma',
     'numpy.logical_and': 'and', 'numpy.logical_or': 'or', 'numpy.logical_not': 'not',
+    'numpy.compress': 'compress', 'numpy.log1p': 'log1p', 'numpy.expm1': 'expm1',
     'numpy.not_equal': 'ne', 'numpy.equal': 'eq', 'numpy.less': 'lt', 'numpy.less_equal': 'le',
     'numpy.greater': 'gt', 'numpy.greater_equal': 'ge',
 }
@@ -50,16 +51,44 @@ SHAPE_FUNCS = {'numpy.asarray', 'numpy.array', 'numpy.copy', 'numpy.ravel', 'num
 SHAPE_METHODS = {'ravel', 'copy', 'flatten', 'squeeze', 'tolist'}
 
 
+_KEYS = {}
+
+
 def _key(obj):
+    """Canonical, cached string key of an atom / monomial / Poly / tuple structure."""
+    if isinstance(obj, Poly):
+        return obj.skey()
+    if isinstance(obj, tuple):
+        i = id(obj)
+        hit = _KEYS.get(i)
+        if hit is not None and hit[0] is obj:
+            return hit[1]
+        k = '(' + ','.join(_key(x) for x in obj) + ')'
+        _KEYS[i] = (obj, k)
+        return k
+    if isinstance(obj, Fraction):
+        return str(obj)
     return repr(obj)
 
 
 class Poly:
-    """dict: monomial -> Fraction; monomial = tuple of (atom, Fraction exponent), sorted by repr."""
-    __slots__ = ('t',)
+    """dict: monomial -> Fraction; monomial = tuple of (atom, Fraction exponent), sorted by key. Immutable."""
+    __slots__ = ('t', '_k', '_h')
 
     def __init__(self, t=None):
-        self.t = {k: v for k, v in (t or {}).items() if v != 0}
+        tt = {}
+        for k, v in (t or {}).items():
+            if v != 0:
+                k, v = _fold_consts(k, v)
+                tt[k] = tt.get(k, ZERO) + v
+        self.t = {k: v for k, v in tt.items() if v != 0}
+        self._k = None
+        self._h = None
+
+    def skey(self):
+        if self._k is None:
+            self._k = 'P[' + ';'.join(sorted(_key(m) + '*' + str(c) for m, c in self.t.items())) + ']'
+        return self._k
 
     @staticmethod
     def const(c):
@@ -108,13 +137,15 @@ class Poly:
         return Poly(t)
 
     def key(self):
-        return tuple(sorted(((m, str(c)) for m, c in self.t.items()), key=_key))
+        return self.skey()
 
     def __eq__(self, o):
-        return isinstance(o, Poly) and self.t == o.t
+        return isinstance(o, Poly) and self.skey() == o.skey()
 
     def __hash__(self):
-        return hash(self.key())
+        if self._h is None:
+            self._h = hash(self.skey())
+        return self._h
 
     def atoms(self):
         out = set()
@@ -148,6 +179,22 @@ class Poly:
 
     def __repr__(self):
         return show(self)
+
+
+def _fold_consts(m, c):
+    """('const', 'p/q') atoms raised to an integer power are folded into the rational coefficient."""
+    if not any(isinstance(a, tuple) and a and a[0] == 'const' for a, e in m):
+        return m, c
+    out = []
+    for a, e in m:
+        if a[0] == 'const' and e.denominator == 1:
+            try:
+                c = c * Fraction(a[1]) ** int(e)
+                continue
+            except (ValueError, ZeroDivisionError):
+                pass
+        out.append((a, e))
+    return tuple(out), c
 
 
 def _mono_mul(m1, m2):
@@ -249,6 +296,7 @@ def power(p, k):
             r = _rat_root(c, k)
             if r is not None:
                 return Poly({tuple((a, e * k) for a, e in m): r})
+            return Poly({_mono_mul(tuple((a, e * k) for a, e in m), ((('const', str(c)), k),)): ONE})
     if k.denominator == 1 and 0 < k <= 6:
         r = Poly.const(1)
         for _ in range(int(k)):
@@ -542,6 +590,19 @@ class Normalizer:
             return self._bool(canon, A)
         if canon == 'not' and len(A) == 1:
             return self._not(A[0])
+        if canon == 'compress' and len(A) >= 2:
+            sgn, c = self._sign_canon(A[1])
+            return Poly.atom(('call', 'compress', (A[0], c) + tuple(A[2:]), K)).scale(sgn)
+        if canon == 'log1p' and len(A) == 1:
+            return self._log('log', A[0] + Poly.const(1))
+        if canon == 'expm1' and len(A) == 1:
+            return Poly.atom(('call', 'exp', (A[0],), ())) - Poly.const(1)
+        if canon in ('len', 'size') and len(A) == 1:
+            st = A[0].single_term()
+            if st is not None and st[0] != () and st[1] != 1:
+                return Poly.atom(('call', canon, (Poly({st[0]: ONE}),), K))
+        if canon in ('min', 'max') and len(A) == 2 and not K:
+            A = sorted(A, key=_key)
         if canon == 'abs' and len(A) == 1:
             sgn, c = self._sign_canon(A[0])
             if c.is_const():
@@ -583,11 +644,34 @@ def parse(src):
     return ast.parse(src, mode='eval').body
 
 
+def clone(node, leaf=None):
+    """Field-wise copy of an AST (ignores helper attributes such as _src/_parent, which deepcopy would drag
+    along together with the whole module). `leaf(node)` may return a replacement for a node."""
+    if leaf is not None:
+        r = leaf(node)
+        if r is not None:
+            return r
+    if isinstance(node, list):
+        return [clone(x, leaf) for x in node]
+    if not isinstance(node, ast.AST):
+        return node
+    new = type(node)()
+    for f in node._fields:
+        if hasattr(node, f):
+            setattr(new, f, clone(getattr(node, f), leaf))
+    for a in ('_param',):
+        if hasattr(node, a):
+            setattr(new, a, getattr(node, a))
+    return new
+
+
 def rename(e, mapping):
-    """Simultaneous renaming of plain names in an AST (returns a deep copy)."""
-    import copy
-    e = copy.deepcopy(e)
-    for n in ast.walk(e):
+    """Simultaneous renaming of plain names in an AST (returns a copy)."""
+    def leaf(n):
         if isinstance(n, ast.Name) and n.id in mapping:
-            n.id = mapping[n.id]
-    return e
+            m = ast.Name(id=mapping[n.id], ctx=ast.Load())
+            if hasattr(n, '_param'):
+                m._param = n._param
+            return m
+        return None
+    return clone(e, leaf)
